@@ -40,7 +40,7 @@ man = {
     ],
     "checks": checks,
     "not_applicable": na,
-    "notes": "All checks are static: they rebuild facts from /repo's current working tree on every run (content-hashed cache under /verif/.cache) and never execute ractor code. Known findings: known_findings.json.",
+    "notes": "All checks are static: they rebuild facts from /repo's current working tree on every run (content-hashed cache under /verif/.cache) and never execute ractor code. A rule that fails on the program as written is re-asked on semantics-preserving presentations of the same MIR (private helpers and in-place closures spliced into their callers, renamed private items under their reference names, combinators as matches; DESIGN.md section 14) before a violation is reported. Known findings: known_findings.json.",
 }
 json.dump(man, open(os.path.join(VERIF, "MANIFEST.json"), "w"), indent=1)
 print("checks:", [c["property_id"] for c in checks], "na:", [n["property_id"] for n in na])
